@@ -133,6 +133,14 @@ func runC13(r *Rng, n int, tier string) {
 				PQuery{Name: "TwinStar", Cmd: ":many", SQL: fmt.Sprintf("SELECT * FROM %s", tw.Name)})
 			twin = true
 		}
+		if p.RawSchema == "" && i%3 == 1 {
+			// an override whose import path is a standard-library package that a built-in type mapping imports too
+			p.Tables = append(p.Tables, PTable{Name: "jobs", Cols: []PCol{{Name: "id", Type: "bigint", NotNull: true}, {Name: "timeout", Type: "bigint", NotNull: true},
+				{Name: "started_at", Type: map[string]string{"postgresql": "timestamptz", "mysql": "datetime"}[engine], NotNull: true}, {Name: "payload", Type: map[string]string{"postgresql": "jsonb", "mysql": "json"}[engine], NotNull: true}}})
+			p.Overrides = append(p.Overrides, `{"column":"jobs.timeout","go_type":{"import":"time","type":"Duration"}}`, `{"column":"jobs.id","go_type":{"import":"encoding/json","type":"Number"}}`)
+			p.Queries = append(p.Queries, PQuery{Name: "JobTimes", Cmd: ":many", SQL: "SELECT id, timeout, started_at, payload FROM jobs"},
+				PQuery{Name: "JobTimeout", Cmd: ":one", SQL: "SELECT timeout FROM jobs WHERE started_at = " + p.ph(1)})
+		}
 		collide := false
 		var known []string
 		if p.RawSchema == "" && engine == "postgresql" && r.Chance(35) {
